@@ -50,11 +50,14 @@ GRAMMARS = {
     'g1': 'start: greet NAME+\ngreet: "hello" | "hi"\n%import .imp (NAME)\n%import common.WS\n%ignore WS\n',
     'g2': 'start: NAME ("," NAME)*\n%import .imp (NAME)\n%import common.WS\n%ignore WS\n',
     'g4': 'start: [greet] NAME\ngreet: "hello"\n%import .imp (NAME)\n%import common.WS\n%ignore WS\n',
+    # two grammars / two import contents that differ ONLY in the blanks inside a literal or a character class
+    'g5': 'start: greet NAME+\ngreet: "hi a" | "hello"\n%import .imp (NAME)\n%import common.WS\n%ignore WS\n',
+    'g6': 'start: greet NAME+\ngreet: "hi  a" | "hello"\n%import .imp (NAME)\n%import common.WS\n%ignore WS\n',
 }
 OPTIONS = {'o1': {}, 'o2': {'keep_all_tokens': True}, 'o3': {'maybe_placeholders': False, 'propagate_positions': True},
            'o4': {'maybe_placeholders': False}, 'o5': {'maybe_placeholders': True}, 'pa': {'import_paths': ['pa']}, 'pb': {'import_paths': ['pb']}}
-IMPORTS = {'i1': 'NAME: /[a-z]+/\n', 'i2': 'NAME: /[A-Z]+/\n'}
-INPUTS = ['hello world', 'hi a b', 'hello WORLD', 'a, b', 'A,B', 'hello', 'x', '', 'hi Hello']
+IMPORTS = {'i1': 'NAME: /[a-z]+/\n', 'i2': 'NAME: /[A-Z]+/\n', 'i3': 'NAME: /[a-z][a-z ]*[a-z]/\n', 'i4': 'NAME: /[a-z][a-z  ]*[a-z]/\n'}
+INPUTS = ['hello world', 'hi a b', 'hello WORLD', 'a, b', 'A,B', 'hello', 'x', '', 'hi Hello', 'hi  a b', 'hi a  b c']
 VERSIONS = {'v1': None, 'v2': '9.9.9'}
 
 
@@ -269,6 +272,9 @@ def jobs(tier, rng, expected):
     # option sets that differ only in a falsy value, import search paths holding same-named files, and plain re-use
     for a, b in ((step(g='g4', o='o4'), step(g='g4', o='o1')), (step(g='g4', o='o1'), step(g='g4', o='o4')), (step(g='g4', o='o5'), step(g='g4', o='o4')),
                  (step(g='g3', o='pa'), step(g='g3', o='pb')), (step(g='g3', o='pb'), step(g='g3', o='pa'))):
+        out.append({'steps': [a, b, a, b], 'expected': expected})
+    for a, b in ((step(g='g5'), step(g='g6')), (step(g='g6'), step(g='g5')), (step(i='i3'), step(i='i4')), (step(i='i4'), step(i='i3')),
+                 (step(g='g5', i='i3'), step(g='g6', i='i4'))):
         out.append({'steps': [a, b, a, b], 'expected': expected})
     for g_, o_ in (('g1', 'o1'), ('g2', 'o3'), ('g3', 'pa'), ('g4', 'o4')):
         out.append({'steps': [step(g=g_, o=o_), step(g=g_, o=o_), step(g=g_, o=o_)], 'expected': expected})
